@@ -7,6 +7,13 @@ ROOT = os.path.dirname(os.path.dirname(os.path.abspath(__file__)))
 ALL = ["C%02d" % i for i in range(1, 20)]
 
 CHECKS = {
+    "C04": {
+        "spec": "specs/Chain.tla + ChainTrace.tla, specs/Binding.tla + BindingTrace.tla",
+        "text": "Chain.tla is an evaluation machine for >> expressions (Partial / PartialBind clause by clause, Python's operand order); TLC checks Associative and OnceLastToFirst for every parenthesisation of 2..6 (thorough 7) elements x three tail forms and emits every expression; each is built as a real Python expression over recording classes (3 random splits of the arguments over curry calls; plus random expressions of 7..10 elements) and the resulting object graph, construction log and received arguments are validated by TLC. Binding.tla states Python's partial call binding as a predicate over signatures and argument supplies; TLC enumerates 48 signatures x supplies x {plain, @service} classes, the real templates are created and curried, and TLC compares each call's outcome with ShouldReject.",
+        "note": "controllers only at the head of a chain; signatures without positional-only parameters; for Binding.tla TLC is the enumerator and the evaluator of the oracle on observed outcomes (the model itself has no independent property); one known finding (F7: the check is vacuous for @service classes).",
+        "design": "5/C04, 4.3",
+        "technique": "TLA+ model checking (TLC) of the >> evaluation machine + TLC-enumerated expressions and signatures executed on the real templates + trace validation",
+    },
     "C18": {
         "spec": "specs/YamlSafety.tla + YamlSafetyTrace.tla",
         "text": "YamlSafety.tla abstracts a document to the sequence of its tagged nodes and the loader to the set of non-plugin tag kinds its class has constructors for; that set is probed from the real COBalDLoader at check time, so a loader that is not a SafeLoader makes the model itself violate OnlyRegistered. TLC checks OnlyRegistered / BadIsRejected over all enumerated documents (19 tag kinds x named targets x 11 positions x argument shapes; thorough: two bad nodes) and emits them; each is rendered to YAML and loaded by the real load() in sub-processes armed with canaries (recording callable / class, import hook, marker file, patched plugin class); what fired and the outcome are validated by TLC.",
